@@ -46,6 +46,7 @@ func C10(c *core.Ctx) {
 	emit(c, a.Cycle())
 	emit(c, a.ParentPath())
 	emit(c, a.RefCacheScope())
+	emit(c, a.QualifiedResolution())
 	ruleDedup(c)
 	// Engine A: the same oracles that decide the inline forms decide the referenced forms ("replacing a reference by an inline copy of its
 	// target does not change which documents are accepted"): value families at the $defs / definitions positions, a definition referenced twice
@@ -226,6 +227,8 @@ func C20(c *core.Ctx) {
 	} else {
 		c.Fail("B-LEGACY", "(*pkg/schemas.Schema).UnmarshalJSON", "schema id reaches routing verbatim (id -> $id)", r.Pos, strings.Join(r.Problems, "; "), r.Problems)
 	}
+	// B-PARENT: the file name under which a referenced file is processed (the base of ITS relative refs) is the resolved location
+	emit(c, a.ParentPath())
 	// B-REFCACHE: a cache keyed by the file-relative text of a $ref must live and die with one file's generator, or the code for a
 	// schema depends on which other files were processed before it
 	emit(c, a.RefCacheScope())
